@@ -148,7 +148,7 @@ def matrix_jobs(prefix, tier, audit, group):
         heavy = (op, slots) in HEAVY or (op, slots, l0) in HEAVY
         if audit and 'SYM_FRAME' in ex:
             continue     # hostile frame bases are C13's subject; the audit variant of these runs out of memory
-        if heavy and not ex.get('IMM_FIX0') is not None and tier == 'quick' and not any(k.startswith('FIX_I') for k in ex):
+        if heavy and not ex.get('IMM_FIX0') is not None and not any(k.startswith('FIX_I') for k in ex):   # heavy instances: no verdict within 10 GB in either tier (measured)
             if not (op == 'OP_STORE_LOCAL' and ex):   # the constant-slot store_local variants are cheap
                 continue
         jobs.append(vm_job(prefix, op, slots, l0=l0, g0=g0, extra=ex, audit=audit, strict_leak=(audit and (op, slots) not in NO_STRICT), overflow=(op in DIVOPS), group=group,
